@@ -24,7 +24,7 @@ import random
 from .core import cstr, clist, cbool, cnat, copt
 
 LIT = ["alpha", "beta", "gamma", "mtu", "ip", "peer", "vlan", "interface", "port", "system", "interfaces"]
-VAL = ["1", "2", "3", "x", "y", "10.0.0.1", "Eth1", "interfaces"]
+VAL = ["1", "2", "3", "x", "y", "10.0.0.1", "Eth1", "interfaces", "0"]
 GENS = ["g1", "g2", "g3"]
 
 # vendor -> reverse prefix (registry[vendor].reverse); only "juniper" strips "inactive: "
